@@ -11,7 +11,9 @@
      stage 5  every ACCEPTED journal     C06_load_wf, C06_accepted_roundtrip, C06_accepted_fixpoint
    journal_wf (TkSpec.Journal_spec) = decidable description of the transactions the loader produces: time
    stamp shown at a whole-minute offset within jiff's ranges, civil year 0000..9999; trimmed code /
-   description; lower-case uuid; location in range; valid distinct tags; one-line comments; valid names;
+   description; lower-case uuid; location in range; valid distinct tags; one-line comments; names that
+   the grammar reads AND the semantic name rules accept (AccountTreeNode::from, Commodity::from: no white
+   space such as U+1680, which is an identifier character of the grammar);
    non-zero amounts; every decimal in the 96-bit / 28-decimals type; a unit-priced posting stores
    amount * price for a representable non-negative price (unit_priced - "price products are exact"); one
    transaction commodity; zero sum; canonical order.  C06_load_wf proves that every journal accepted by the
